@@ -41,6 +41,14 @@ Proof.
   apply negb_true_iff in H. exact H.
 Qed.
 
+Theorem c18_step_purge_or_keep_proof : C18_step_purge_or_keep.
+Proof.
+  intros cfg s b s' evs r H. apply fk_step_shape in H. destruct H as [Y [HY [[Hs _]|Hs]]].
+  - left. intros e He. destruct (sent_ext_in _ _ _ HY He) as [e' [Hi Hsb]]. exists e'. rewrite Hs. auto.
+  - right. unfold bounded. rewrite Hs. apply Forall_forall. intros e He. apply filter_In in He.
+    destruct He as [_ He]. apply N.leb_le in He. exact He.
+Qed.
+
 Theorem c18_step_retained_proof : C18_step_retained.
 Proof.
   intros cfg s b s' evs r e H Hin Hid Hc. unfold holds.
@@ -239,6 +247,13 @@ Proof.
     - intros j b2 Hj Hb2 Heq. rewrite Heb in *. apply (Hid j b2); [lia | exact Hb2 | exact Heq].
     - intros j sj Hj Hsj. rewrite Heb. apply (Hc j sj); [lia | exact Hsj]. }
   split; [exact Hfin|]. apply c18_held_found_proof in Hfin. cbn [eb] in Hfin. exact Hfin.
+Qed.
+
+Theorem c18_run_received_at_lib_proof : C18_run_received_at_lib.
+Proof.
+  intros cfg s0 h k m b sk sm Hkm Hb Hk Hm Hst Hid Hmono Hlib.
+  eapply c18_run_received_found_proof; eauto.
+  intros j sj Hj Hsj. pose proof (Hmono j sj Hj Hsj). unfold cutoff. lia.
 Qed.
 
 Theorem c18_run_lookups_total_proof : C18_run_lookups_total.
